@@ -1094,6 +1094,14 @@ func checkC19Retry(ix *index, add addFn) {
 			add("sentinel", "no error identifiable as RequestTimeoutError: "+detail, map[string]string{"want": "reqtimeout"})
 		}
 	})
+	// a Connect of the reconnecting client that gave up because its context
+	// ended reports that context's error, whatever the attempts before met
+	// (refused CONNACK, dial error)
+	checkC11Reconn(ix, func(rule, detail string, feat map[string]string) {
+		if rule == "ctx-error" {
+			add("sentinel", detail, map[string]string{"want": "ctx"})
+		}
+	})
 	for i := range ix.tr {
 		r := &ix.tr[i]
 		if r.Kind != "onerror" {
